@@ -16,7 +16,9 @@ Import ListNotations.
    anywhere in the trace then the chain events occurred exactly once each, in this order, the
    session server returned a profile, and before the admission the client sent exactly one
    acceptable login start, later one encryption response with token_ok, secret_ok and keylen_ok all
-   true, and otherwise only plugin responses (so: each in order and exactly once). *)
+   true, and otherwise only plugin responses (so: each in order and exactly once). The machine includes
+   the waiting state in which a PreLogin subscriber's login plugin messages (cfg field pre_msgs) are
+   outstanding: a login start arriving then is out of order (in_order = false there). *)
 Theorem admitted_implies_chain : forall c ops,
   effective_online c = true -> provider c = false ->
   admitted (trace c ops) = true ->
@@ -24,7 +26,7 @@ Theorem admitted_implies_chain : forall c ops,
   chain_of (trace c ops) = [OEncRequest; OEncEnabled; OJoin; ORegister; OSuccess USession] /\
   exists pre ls mid er post,
     ops = pre ++ ls :: mid ++ er :: post /\ good_login c ls = true /\ good_enc er = true /\
-    Forall (fun o => o = PluginResp) pre /\ Forall (fun o => o = PluginResp) mid.
+    Forall (fun o => is_plugin_resp o = true) pre /\ Forall (fun o => is_plugin_resp o = true) mid.
 Proof. exact admitted_implies_chain_thm. Qed.
 Print Assumptions admitted_implies_chain.
 
@@ -56,7 +58,7 @@ Print Assumptions closed_is_absorbing.
    behaviour for every configuration without a profile-providing transport and every sequence: a
    VIOLATION verdict can only stem from the implementation, not from the predicate. *)
 Theorem judge_predicate_accepts_model : forall c ops, provider c = false ->
-  holds_from c (mkT XLogin true false 0) ops (map obs_of (outs c ops)) = true.
+  holds_from c (mkT XLogin true false 0 false) ops (map obs_of (outs c ops)) = true.
 Proof. exact model_satisfies_predicate. Qed.
 Print Assumptions judge_predicate_accepts_model.
 
@@ -64,10 +66,19 @@ Print Assumptions judge_predicate_accepts_model.
    connection; an offline admission *)
 Example C08_chain_example :
   effective_online cfg_online = true /\ provider cfg_online = false /\
-  admitted (trace cfg_online [LoginStart true KNone; PluginResp; EncResp true true true; LoginAck]) = true /\
-  outs cfg_online [LoginStart true KNone; PluginResp; EncResp true true true; LoginAck]
+  admitted (trace cfg_online [LoginStart true KNone; PluginResp 7; EncResp true true true; LoginAck]) = true /\
+  outs cfg_online [LoginStart true KNone; PluginResp 7; EncResp true true true; LoginAck]
   = [[OEncRequest]; []; [OEncEnabled; OJoin; OSetCompression; ORegister; OSuccess USession]; [OPost; OClose]].
 Proof. exact chain_example. Qed.
+(* with outstanding pre-login plugin messages: a second login start closes; answers in any order,
+   duplicates and unknown ids are tolerated and the login continues after the last real answer *)
+Example C08_waiting_example :
+  outs cfg_online_msgs [LoginStart true KNone; LoginStart true KNone; PluginResp 1; PluginResp 2; EncResp true true true]
+  = [[OPluginMsg 1; OPluginMsg 2]; [OClose]; []; []; []] /\
+  in_order cfg_online_msgs (final cfg_online_msgs [LoginStart true KNone]) (LoginStart true KNone) = false /\
+  outs cfg_online_msgs [LoginStart true KNone; PluginResp 2; PluginResp 2; PluginResp 9; PluginResp 1; EncResp true true true]
+  = [[OPluginMsg 1; OPluginMsg 2]; []; []; []; [OEncRequest]; [OEncEnabled; OJoin; OSetCompression; ORegister; OSuccess USession]].
+Proof. exact waiting_example. Qed.
 Example C08_out_of_order_example :
   final cfg_online [LoginStart true KNone] <> PClosed /\
   in_order cfg_online (final cfg_online [LoginStart true KNone]) (LoginStart true KNone) = false /\
